@@ -194,11 +194,17 @@ Fixpoint lex_ok (e : fexpr) : bool :=
 Definition wsish (t : token) : bool :=
   match ttype t with T_WS | T_NL | T_COMMENT => true | _ => false end.
 
-(* identifiers and keywords may be map keys *)
+(* a text whose token is neither ILLEGAL nor the keyword func (Parse drops the former and its
+   signature pre-pass reacts to the latter wherever it stands) *)
+Definition tok_plain (s : str) : bool :=
+  match ttype (tok_of_text s) with T_ILLEGAL | T_FUNC => false | _ => true end.
+
+(* identifiers and keywords may be map keys; not `func`: parseFuncSignatures would take it for the
+   start of a function definition *)
 Definition key_text (k : str) : bool :=
   let kt := tok_of_text k in
   toktype_beq (ttype (as_ident kt)) T_IDENT && str_eqb (tlit (as_ident kt)) k && negb (wsish kt)
-  && negb (toktype_beq (ttype kt) T_RCURLY) && negb (toktype_beq (ttype kt) T_EOF).
+  && negb (toktype_beq (ttype kt) T_RCURLY) && negb (toktype_beq (ttype kt) T_EOF) && tok_plain k.
 
 Fixpoint covered (fs : list (str * bool)) (w : bool) (e : fexpr) {struct e} : bool :=
   let all := fix all (l : list fexpr) : bool := match l with [] => true | x :: t => covered fs true x && all t end in
